@@ -28,11 +28,13 @@ BaseCase(A) == A
 PR == INSTANCE PLERec
 
 REG == [base |-> 0, nrows |-> RM, ncols |-> RW * W, rowstride |-> RW]
-Addrs == 0 .. RM * RW - 1
+\* the region and - only for the kinds that write into a separate destination - a second one behind it
+Addrs == IF KINDS \cap {"extract", "copy_row"} # {} THEN 0 .. 2 * RM * RW - 1 ELSE 0 .. RM * RW - 1
 Win(r0, w0, m, n) == [base |-> r0 * RW + w0, nrows |-> m, ncols |-> n, rowstride |-> RW]
 Wins == {Win(r0, w0, m, n) : r0 \in 0 .. 1, w0 \in 0 .. RW - 1, m \in 1 .. RM, n \in 1 .. RW * W}
 Valid(S) == LET r0 == S.base \div RW  w0 == S.base % RW IN r0 + S.nrows <= RM /\ w0 * W + S.ncols <= RW * W
 MatOf(mem, M) == Mat(M.nrows, M.ncols, ValueOf(mem, M))
+FrameOK2(m0, m1, D) == \A x \in Addrs : \A b \in Bits : (<<x, b>> \notin ViewBits(D)) => ((b \in m0[x]) <=> (b \in m1[x]))
 FrameOK(m0, m1, D) == \A x \in Addrs : \A b \in Bits : (<<x, b>> \notin ViewBits(D)) => ((b \in m0[x]) <=> (b \in m1[x]))
 
 CheckColSwap(S, m0) ==
@@ -48,9 +50,31 @@ CheckCompressLG(S, m0, capped) ==
        LET m1 == WCompressLG(m0, S, r1, n1, r2, capped)
        IN Eq(MatOf(m1, S), PR!CompressL(MatOf(m0, S), r1, n1, r2)) /\ FrameOK(m0, m1, S)
 
+\* destinations: windows of the region disjoint from S are hard to arrange in one region; the destination is a second
+\* copy of the region placed behind it (addresses RM*RW ..), pre-filled by the same memory pattern shifted
+DBASE == RM * RW
+DWin(r0, w0, m, n) == [base |-> DBASE + r0 * RW + w0, nrows |-> m, ncols |-> n, rowstride |-> RW]
+CheckExtract(S, m0) ==
+  LET k == Min({S.nrows, S.ncols}) IN
+  \A r0 \in 0 .. 1, w0 \in 0 .. 1 :
+     (r0 + k <= RM /\ w0 * W + k <= RW * W) =>
+       LET D == DWin(r0, w0, k, k)
+           mu == ExtractUW(m0, D, S, MzdSubmatrix)
+           ml == ExtractLW(m0, D, S, MzdSubmatrix)
+       IN /\ Eq(MatOf(mu, D), ExtractUSem(MatOf(m0, S))) /\ FrameOK2(m0, mu, D)
+          /\ Eq(MatOf(ml, D), ExtractLSem(MatOf(m0, S))) /\ FrameOK2(m0, ml, D)
+CheckCopyRow(S, m0) ==
+  \A i \in 0 .. RM - 1, j \in 0 .. S.nrows - 1, r0 \in 0 .. 1, w0 \in 0 .. 1, extra \in {0, 1, W, W + 1} :
+     (w0 * W + S.ncols + extra <= RW * W /\ r0 + 2 <= RM /\ i < 2) =>
+       LET D == DWin(r0, w0, 2, S.ncols + extra)
+           m1 == CopyRowW(m0, D, i, S, j)
+       IN Eq(MatOf(m1, D), CopyRowSem(MatOf(m0, D), i, MatOf(m0, S), j)) /\ FrameOK2(m0, m1, D)
+
 Check(kind, S, m0) ==
   CASE kind = "col_swap" -> CheckColSwap(S, m0)
     [] kind = "compress_l" -> CheckCompressLG(S, m0, TRUE)
+    [] kind = "extract" -> CheckExtract(S, m0)
+    [] kind = "copy_row" -> CheckCopyRow(S, m0)
     [] kind = "compress_l_f17" -> CheckCompressLG(S, m0, FALSE)     \* witness: the pinned tree's version must be rejected
 
 BasisMems == {[x \in Addrs |-> {}], [x \in Addrs |-> Bits]} \cup {[x \in Addrs |-> IF x = y THEN {b} ELSE {}] : y \in Addrs, b \in Bits}
